@@ -224,7 +224,7 @@ def stateful(ctx):
             expect.append((nm, el, code))
         for blk in range(rng.randint(2, 5)):
             pn = rng.choice([1, 2, -1, -2, 3])
-            pcode = rng.choice([None, 21.0, -21.0, 31.0, -31.0, 10.5, 20.5, -30.25])
+            pcode = rng.choice([None, 21.0, -21.0, 31.0, -31.0, 10.5, 20.5, -30.25, 11.0])
             lines.append('PART %d' % pn if pcode is None else 'PART %d %s' % (pn, pcode))
             for _ in range(rng.randint(1, 3)):
                 own = rng.choice([11.0, 11.0, 21.0, -21.0, 10.25, 30.5])
